@@ -219,6 +219,12 @@ class QueryParser(object):
                     e = sys.exc_info()[1]
                     return query.error_query(e)
 
+            # A field that is stored but not indexed cannot be searched;
+            # report that in-band
+            if not field.format:
+                return query.error_query("Field %r is not indexed"
+                                         % fieldname)
+
             # Otherwise, ask the field to process the text into a list of
             # tokenized strings
             texts = list(field.process_text(text, mode="query",
